@@ -179,7 +179,8 @@ theorem singleInterval_total (s : DateSpec) (so : DateOffset) (e : DateSpec) (eo
       | none =>
         simp only []
         obtain ⟨r3, hr3, hp3⟩ := firstEndFrom_total e eo heo start
-          [year start - 1, year start, year start + 1, year start + 2]
+          [yearBeforeOffset start eo - 1, yearBeforeOffset start eo, yearBeforeOffset start eo + 1,
+            yearBeforeOffset start eo + 2]
         simp only [hr3, ok_bind]
         cases r3 with
         | some stop => exact ⟨_, rfl, fun iv h => by cases h; exact ⟨hst', hp3 stop rfl⟩⟩
@@ -215,8 +216,8 @@ theorem monthdayFilter_total (r : MonthdayRange) (hwf : r.wf = true) (d : Int) :
     have heo : eo.wday.wf = true := hwf.2.1
     clear hwf
     obtain ⟨r1, h1, -⟩ := singleInterval_total s so e eo hso heo
-    have hb1 := boundsOn_total s so hso true (yearsAround (year d) 2 2)
-    have hb2 := boundsOn_total e eo heo false (yearsAround (year d) 2 2)
+    have hb1 := boundsOn_total s so hso true (yearsAround (yearBeforeOffset d so) 2 2)
+    have hb2 := boundsOn_total e eo heo false (yearsAround (yearBeforeOffset d eo) 2 2)
     have hsd := fun m dd ys => singleDayFind_total m dd so eo hso heo d ys
     unfold MonthdayRange.filter
     simp only []
@@ -224,7 +225,7 @@ theorem monthdayFilter_total (r : MonthdayRange) (hwf : r.wf = true) (d : Int) :
     · rename_i fy m dd _
       cases fy with
       | none =>
-        obtain ⟨r2, h2, -⟩ := hsd m dd (yearsAround (year d) 1 1)
+        obtain ⟨r2, h2, -⟩ := hsd m dd (yearsAround (yearBeforeOffset d eo) 1 8)
         simp only [h2, ok_bind]
         cases r2 <;> exact ⟨_, rfl⟩
       | some n =>
